@@ -12,7 +12,7 @@ import est_common as ec
 
 PROP_FILE = 'theories/Properties/C06.v'
 MODEL_FILES = ['theories/Base/Rows.v', 'theories/Model/Estimators.v', 'theories/Model/Variance.v', 'theories/Spec/Measures.v']
-GEN_GROUPS = ['calc', 'ic', 'aipw', 'pool', 'wprod', 'xfvar', 'drci']
+GEN_GROUPS = ['calc', 'ic', 'aipw', 'pool', 'wprod', 'xfvar', 'drci', 'xftmle']
 RULE = ('alpha grid {0.05, 0.049999, 0.5, 1e-6, 0.999, 0.01, 0.2} x: count calculators on random tables; AIPTW / TMLE / '
         'StochasticTMLE / IPTW on random mixed frames; calculate_joint_estimate on random vectors and the four cross-fit '
         'classes with sklearn learners; per fit: limits = est -/+ norm.ppf(1-alpha/2)*SE on the documented scale, nestedness '
@@ -446,6 +446,18 @@ def crossfit_part(ctx, fails):
                 calls.append((kw, r_))
                 return r_
             CFM.aipw_calculator = spy_calc
+            tcalls = []
+            orig_tcalc = CFM.tmle_calculator
+
+            def spy_tcalc(*a_, **k_):
+                r_ = orig_tcalc(*a_, **k_)
+                names = ['y', 'ystar1', 'ystar0', 'ystara', 'h1w', 'h0w', 'haw', 'splits', 'measure', 'lower_bound', 'upper_bound']
+                kw = {'measure': 'ate', 'lower_bound': None, 'upper_bound': None}
+                kw.update(dict(zip(names, a_)))
+                kw.update(k_)
+                tcalls.append((kw, r_))
+                return r_
+            CFM.tmle_calculator = spy_tcalc
             try:
                 for a in ALPHAS[:4]:
                     o = getattr(dr, cname)(df, 'A', 'Y', alpha=a)
@@ -462,6 +474,56 @@ def crossfit_part(ctx, fails):
                 continue
             finally:
                 CFM.aipw_calculator = orig_calc
+                CFM.tmle_calculator = orig_tcalc
+            # cross-fit TMLE: per-partition estimate and variance recomputed from what tmle_calculator was handed -- the plug-in, and
+            # the mean over the parts of the within-part variance (ddof=1) of the influence values of TMLE.fit (Model.Variance.xf_ic_*,
+            # with the means of the part), over n
+            seen_t = set()
+            for kw, (est_, var_) in tcalls:
+                ms_ = kw['measure']
+                if ms_ in seen_t:
+                    continue
+                seen_t.add(ms_)
+                y_, q1_, q0_, qa_, h1_, h0_, ha_ = (np.asarray(kw[k], dtype=float) for k in ('y', 'ystar1', 'ystar0', 'ystara', 'h1w', 'h0w', 'haw'))
+                sp_ = np.asarray(kw['splits'])
+                if ms_ == 'ate':
+                    lo_, hi_ = float(kw['lower_bound']), float(kw['upper_bound'])
+                    y_, q1_, q0_, qa_ = (v_ * (hi_ - lo_) + lo_ for v_ in (y_, q1_, q0_, qa_))
+                if ms_ in ('ate', 'risk_difference'):
+                    e_ref = float(np.mean(q1_ - q0_))
+                elif ms_ == 'risk_ratio':
+                    e_ref = float(np.mean(q1_) / np.mean(q0_))
+                else:
+                    e_ref = float((np.mean(q1_) / (1 - np.mean(q1_))) / (np.mean(q0_) / (1 - np.mean(q0_))))
+                pv_ = []
+                for s_ in sorted(set(sp_.tolist())):
+                    m_ = sp_ == s_
+                    m1_, m0_ = np.mean(q1_[m_]), np.mean(q0_[m_])
+                    res_ = y_[m_] - qa_[m_]
+                    if ms_ in ('ate', 'risk_difference'):
+                        ic_ = ha_[m_] * res_ + (q1_[m_] - q0_[m_]) - e_ref
+                    elif ms_ == 'risk_ratio':
+                        ic_ = 1 / m1_ * (h1_[m_] * res_ + q1_[m_] - m1_) - 1 / m0_ * (-h0_[m_] * res_ + q0_[m_] - m0_)
+                    else:
+                        ic_ = 1 / (m1_ * (1 - m1_)) * (h1_[m_] * res_ + q1_[m_]) - 1 / (m0_ * (1 - m0_)) * (-h0_[m_] * res_ + q0_[m_])
+                    pv_.append(np.var(ic_, ddof=1))
+                v_ref = float(np.mean(pv_) / len(y_))
+                if e_ref != e_ref or v_ref != v_ref or float(est_) != float(est_) or float(var_) != float(var_):
+                    # a learner that predicts outside the unit range gives NaN targeted values: nothing reported to be coherent about
+                    NAN_SEEN[0] += 1
+                    ctx.count('crossfit TMLE partition with NaN targeted values (not judged)')
+                    continue
+                ctx.disagreements_checked += 1
+                ctx.count('crossfit TMLE partition estimate and variance recomputed (%s)' % ms_)
+                if not (abs(float(est_) - e_ref) <= 1e-10 * max(1.0, abs(e_ref))):
+                    fails.append((len(df), 'crossfit.tmle_calculator.%s.estimate' % ms_, '%s: tmle_calculator(measure=%s) returned the estimate %r; the '
+                                  'plug-in of the targeted predictions is %r' % (cname, ms_, float(est_), e_ref), payload))
+                if not (abs(float(var_) - v_ref) <= 1e-9 * max(1.0, abs(v_ref))):
+                    fails.append((len(df), 'crossfit.tmle_calculator.%s.influence-values' % ms_, '%s: tmle_calculator(measure=%s) returned the '
+                                  'variance %r for a partition with part sizes %s; the mean over the parts of the within-part variance of the '
+                                  'influence values over n is %r (ratio %.4f)'
+                                  % (cname, ms_, float(var_), np.bincount(sp_.astype(int)).tolist(), v_ref, float(var_) / v_ref if v_ref else float('nan')),
+                                  payload))
             # per-partition variance of the cross-fit AIPTW difference: mean over the parts of the within-part variance (ddof=1) of
             # the influence values (centred at the overall estimate), over n -- recomputed from what aipw_calculator was handed
             for kw, (est_, var_) in calls:
